@@ -882,8 +882,13 @@ static void mps_set_bound (
 	}
 	else if (!strcmp (bndtype, "UI"))
 	{
+		/* the setter also has a remark for a bound it has applied ("0.0 upper
+		 * bound fixes variable"): whether the record counts is decided by the
+		 * bound being new, not by the absence of a message */
+		int isnew = (lp->ubind[colind] == 0);
+
 		msg = EGLPNUM_TYPENAME_ILLraw_set_upperBound (lp, colind, bnd);
-		if (msg == NULL)
+		if (isnew)
 		{
 			lp->intmarker[colind] = 1;
 		}
